@@ -56,6 +56,18 @@ def make_items(seed, n):
         k = len(items) // 2
         items.append(engine.Item(f"{k}a", p, note="original"))
         items.append(engine.Item(f"{k}b", renamed(p), note="renamed"))
+    # pool sweep: programs with many untyped values, so that the allocator walks far into its pool
+    # (past the letters, digits and colours); every chosen name is checked and a few sums are validated
+    import random
+    r = random.Random(seed * 7 + 13)
+    sizes = [r.randint(22, 27), r.randint(28, 40), r.choice([48, 64, 90])] + ([r.randint(100, 200)] if n > 30 else [])
+    for j, k in enumerate(sizes):
+        p = [("in", f"u{i}", None, i + 1) for i in range(k)]
+        picks = [(0, k - 1), (22 % k, k // 2), (r.randrange(k), r.randrange(k)), (k - 2, 21 % k)]
+        for a, b in picks:
+            if a != b:
+                p.append(("sig", f"s{len(p)}", ("bin", r.choice(["+", "-", "*"]), ("var", a), ("var", b))))
+        items.append(engine.Item(f"sw{j}", p, note=f"pool sweep, {k} untyped inputs"))
     return items
 
 
@@ -127,7 +139,8 @@ def run(tier, seed, t0):
                    props_file="Props/C01.v", extra_cov=cov, pre=pre,
                    rule="random programs mixing untyped and typed inputs (explicit use of the first letter signals), "
                         "each compiled as written and with every untyped input renamed to a fresh explicit type; both "
-                        "validated for all inputs; static name rules checked on every blueprint")
+                        "validated for all inputs; static name rules checked on every blueprint; plus pool-sweep programs with "
+                        "22-90 (thorough: up to 200) untyped inputs whose chosen names are all checked")
 
 
 def replay(path):
